@@ -8,7 +8,7 @@ use_repo()
 XSI = E.XSI
 BASE = {'shape': {'s1': 1}, 'n': 5, 's': 'hello', 'd': '2020-02-29', 'col': 'red', 'xs': [1, 2],
         'ps': [{'name': 'ann', 'age': 30, 'born': '1990-01-02'}], 'p': {'name': 'bob', 'age': 40, 'born': '1980-03-04'},
-        'fl': 1.5, 'b': True, 'cs': [{'s1': 1, 'r': 2}], 'ss': [{'s1': 3}]}
+        'fl': 1.5, 'b': True, 'cs': [{'s1': 1, 'r': 2}], 'ss': [{'s1': 3}], 'aa': [['x', 'y'], ['z']]}
 HDR = {'token': 'tok-1', 'n': 3, 'd': '2021-05-06'}
 HDR_T = {'k': 'obj', 'ns': 'tns', 'name': 'Session'}
 TREES = {'emptymap': {}, 'emptylist': [], 'map1': {'k': 1}, 'list1': [1], 'str': 'str', 'strnum': '5', 'zero': 0, 'one': 1, 'false': False,
@@ -100,6 +100,13 @@ def hit(m, path):
     return m is not None and list(m['pos']['path']) == [str(p) for p in path]
 
 
+def item_name(t):
+    """element name of an array item of type t (the type's name: integer, string, Person, stringArray)"""
+    if t['k'] == 'arr':
+        return item_name(t['of']) + 'Array'
+    return {'Integer': 'integer', 'Unicode': 'string'}.get(t.get('p'), t.get('name'))
+
+
 def xml_request(table, m, header=False):
     def elem(name, t, v, path):
         q = 'tns:' + name
@@ -117,7 +124,7 @@ def xml_request(table, m, header=False):
             return '<%s%s>%s</%s>' % (q, attrs, E.xml_escape(E.lex(v)), q)
         if k == 'arr':
             it = t['of']
-            iname = {'Integer': 'integer'}.get(it.get('p'), it.get('name'))
+            iname = item_name(it)
             return '<%s%s>%s</%s>' % (q, attrs, ''.join(elem(iname, it, x, path + [i]) for i, x in enumerate(v)), q)
         inner = ''.join(elem(n, ft, v[n], path + [n]) for n, ft in table['fields'][(t['ns'], t['name'])] if n in v)
         return '<%s%s>%s</%s>' % (q, attrs, inner, q)
@@ -187,5 +194,7 @@ def flat_request(table, m):
             if n in v:
                 walk(ft, v[n], key + '.' + n, path + [n])
     for n, t in table['args']:
+        if t['k'] == 'arr' and t['of']['k'] == 'arr':
+            continue          # the flat notation cannot spell an array of arrays
         walk(t, BASE[n], n, [n])
     return '&'.join('%s=%s' % (quote(k, safe='[].'), quote(v)) for k, v in pairs)
